@@ -704,6 +704,19 @@ class FT2(TD.FunctionTranslator):
         return out
 
 
+def defaults_text(fn, spec, cls=None):
+    """the default values of the trailing parameters, as definitions a caller that omits them uses"""
+    out = ""
+    names = [a.arg for a in fn.args.args][1 if cls else 0:]
+    ds = spec.get("defaults", [])
+    for n, d in zip(names[len(names) - len(ds):], ds):
+        val = {True: "true", False: "false"}[d] if type(d) is bool else "%d" % d
+        ty = "bool" if type(d) is bool else "Z"
+        out += "(* the default value of the parameter %s of %s *)\nDefinition %s_default_%s : %s := %s.\n" % (
+            n, spec["py"], spec["coq"], n, ty, val)
+    return out
+
+
 # ------------------------------------------------------------------ the multi-word detector
 MW_FILE = D + "multiword_detector.py"
 MW_CLASS = "MultiWordDetector"
@@ -808,7 +821,7 @@ def render_mw(repo=None):
     parts, done = [head], {}
     for spec in MW_SPECS:
         fn = defs[spec["py"]]
-        parts.append(FT2(path, MW_FILE, fn, spec, dict(done), MW_CLASS, attrs=attrs).translate())
+        parts.append(FT2(path, MW_FILE, fn, spec, dict(done), MW_CLASS, attrs=attrs).translate() + defaults_text(fn, spec, MW_CLASS))
         done[spec["py"]] = spec
     return MW_HEAD + "\n".join(parts) + "\nEnd DetectMwGen.\n"
 
@@ -1499,7 +1512,7 @@ def render_kbd(repo=None):
             raise TranslateError("%s: def %s not found" % (path, spec["py"]))
         ft = FT3(path, KB_FILE, fn, spec, dict(done))
         ft.boards = boards
-        parts.append(ft.translate())
+        parts.append(ft.translate() + defaults_text(fn, spec))
         done[spec["py"]] = spec
     return KB_HEAD + "\n".join(parts) + "\nEnd DetectKbdGen.\n"
 
